@@ -18,7 +18,7 @@ transcript line and compared through the correspondence):
 positiveHandler, negativeHandler, textHandler, alignmentHandler,
 getNumberFmtConf, getNumberPartLen, numberHandler, printBigNumber,
 printCommaSep, printNumberLiteral, handleDigitsLiteral,
-currencyLanguageHandler (opts = nil), dateTimeHandler, dateTimesHandler,
+currencyLanguageHandler (Options.LongDatePattern / LongTimePattern as `DateIn.sysDate/sysTime`), dateTimeHandler, dateTimesHandler,
 yearsHandler (Gregorian part), daysHandler, hoursHandler, minutesHandler,
 secondsHandler, elapsedDateTimesHandler, hoursNext, apNext, isMonthToken.
 
@@ -237,6 +237,29 @@ def currencyLanguage : List Part → Str → Str → Bool × Str × Str
     else if p.ty = "CurrencyString" then (false, p.val, lc)
     else currencyLanguage ps cur lc
 
+inductive CLRes where
+  | err
+  | changed (date : Bool)
+  | ok
+  deriving DecidableEq, Repr
+
+/-- currencyLanguageHandler with Options: `hasLD` / `hasLT` = LongDatePattern / LongTimePattern is
+non-empty.  A system date (time) tag then makes the handler return `changeNumFmtCode = true`. -/
+def currencyLanguageO (hasLD hasLT : Bool) : List Part → Str → Str → CLRes × Str × Str
+  | [], cur, lc => (.ok, cur, lc)
+  | p :: ps, cur, lc =>
+    if !isSupportedTy p.ty then (.err, cur, lc)
+    else if p.ty = "LanguageInfo" then
+      if inFold langSys1 p.val && hasLD then (.changed true, cur, lc)
+      else
+        let v := if inFold langSys1 p.val then bs "409" else p.val
+        if inFold langSys2 v && hasLT then (.changed false, cur, lc)
+        else
+          let v := if inFold langSys2 v then bs "409" else v
+          if !p.langOk then (.err, cur, lc) else currencyLanguageO hasLD hasLT ps cur (upper v)
+    else if p.ty = "CurrencyString" then (.ok, p.val, lc)
+    else currencyLanguageO hasLD hasLT ps cur lc
+
 def isPlaceholder (t : Tok) : Bool :=
   t.ty = "HashPlaceHolder" || t.ty = "ZeroPlaceHolder" || t.ty = "DigitalPlaceHolder"
 
@@ -351,6 +374,11 @@ structure DateIn where
   /-- locale lookups by upper-cased code, for t0 and for t1 -/
   loc0 : Str → Locale
   loc1 : Str → Locale
+  /-- Options.LongDatePattern is set: the nested `format(nf.value, LongDatePattern, nf.date1904, nf.cellType, opts')`
+  (same value, same date system, patterns cleared) that replaces `nf.value` on a system long-date tag -/
+  sysDate : Option Out := none
+  /-- the same for Options.LongTimePattern and the system time tags -/
+  sysTime : Option Out := none
 
 def amPm : List Str := [['A', 'M', '/', 'P', 'M'], ['A', '/', 'P'], [Char.ofNat 0xe4, Char.ofNat 0xb8, Char.ofNat 0x8a, Char.ofNat 0xe5, Char.ofNat 0x8d, Char.ofNat 0x88, '/', Char.ofNat 0xe4, Char.ofNat 0xb8, Char.ofNat 0x8b, Char.ofNat 0xe5, Char.ofNat 0x8d, Char.ofNat 0x88]]
 
@@ -516,9 +544,12 @@ def dtLoop (items : List Tok) (value : Str) (tm : TimeF) (loc : Str → Locale) 
   | [], st => .ok st.result
   | (i, t) :: rest, st =>
     if t.ty = "CurrencyLanguage" then
-      let (err, cur, lc) := currencyLanguage t.parts st.currency st.localCode
-      if err then .ok value
-      else dtLoop items value tm loc d rest { st with currency := cur, localCode := lc, result := st.result ++ cur }
+      match currencyLanguageO d.sysDate.isSome d.sysTime.isSome t.parts st.currency st.localCode with
+      | (.err, _, _) => .ok value
+      | (.changed true, _, _) => d.sysDate.getD (.ok value)
+      | (.changed false, _, _) => d.sysTime.getD (.ok value)
+      | (.ok, cur, lc) =>
+        dtLoop items value tm loc d rest { st with currency := cur, localCode := lc, result := st.result ++ cur }
     else if t.ty = "DateTimes" then
       match dateTimesHandler items i t tm (loc st.localCode) d st with
       | .panic => .panic
